@@ -5,7 +5,7 @@
    reflection lemmas (allb_spec, allsetting_spec, allmode_spec, forallb_forall); the parts about ALL strings use
    the generic lemmas of Verif.C28.Lemmas. *)
 From Coq Require Import List String Bool.
-From Verif.C28 Require Import Model Spec Lemmas.
+From Verif.C28 Require Import Model Spec Lemmas Hist HistProofs.
 From VerifGen Require Import Gen.
 Import ListNotations.
 Open Scope string_scope.
@@ -264,3 +264,24 @@ Theorem c28_non_enum_values_refuted :
    bird_programs G (bird_policy G BUnset) (mkw MNone true false false false false false false false true) = true).
 Proof. vm_compute; repeat split; reflexivity. Qed.
 Print Assumptions c28_non_enum_values_refuted.
+
+(* ------------------------------------------------------------------------------------------------ run-time histories *)
+
+(* The route manager shared by Felix's IPIP / VXLAN / no-encap managers (hand-written model Hist.run of
+   routeManager.OnUpdate, tied to the real managers by the history stream of the correspondence run): after ANY history
+   of route updates / removals, a destination is held for programming exactly when the LATEST message about it is an
+   update for the manager's own pool type (remote workload, or borrowed tunnel address). *)
+Theorem c28_route_table_is_latest : forall own ms d, In d (run own ms) <-> holds own d ms = true.
+Proof. exact table_is_latest. Qed.
+Print Assumptions c28_route_table_is_latest.
+
+(* so a pool whose mode was edited (the resolver re-announces its blocks with the new pool type), or that was deleted
+   (type NONE), is dropped by the manager of its former class, and no destination is ever held by two managers *)
+Theorem c28_no_stale_destination : forall own ms d m,
+  latest d ms = Some m -> wanted own m = false -> ~ In d (run own ms).
+Proof. exact no_stale_destination. Qed.
+Print Assumptions c28_no_stale_destination.
+
+Theorem c28_one_manager_per_destination : forall ms d o1 o2, In d (run o1 ms) -> In d (run o2 ms) -> o1 = o2.
+Proof. exact one_manager_per_destination. Qed.
+Print Assumptions c28_one_manager_per_destination.
